@@ -45,6 +45,9 @@ class CallQueueModel(Model):
         S.declare(f"{name}.dupput", "bool", False)
         S.declare(f"{name}.sentinels", W, 0)
         S.declare(f"{name}.closed", "bool", False)
+        for v in ("buf", "put"):
+            S.domain.append(z3.ULT(S[f"{name}.{v}"], BV(1 << n)) if n < W else z3.BoolVal(True))
+        S.domain.append(z3.ULE(S[f"{name}.free"], BV(cap)))
         self.hooks = {}
 
     def result_type(self, method):
@@ -102,6 +105,9 @@ class ProcessTable(Model):
         S.declare(f"{name}.exitlock", W, exitlock)   # value (0/1) of each worker's exit semaphore
         S.declare(f"{name}.next", W, None)
         S.declare(f"{name}.spawned_unlocked", "bool", False)
+        for v in ("alive", "started", "joined", "exitlock"):
+            S.domain.append(z3.ULT(S[f"{name}.{v}"], BV(1 << n)) if n < W else z3.BoolVal(True))
+        S.domain.append(z3.ULE(S[f"{name}.next"], BV(n)))
 
     def result_type(self, method):
         return {"new_exit_lock": ("rec", "ExitLock", {"i": "int"}), "exit_lock_acquire": "bool",
@@ -209,20 +215,26 @@ class ExecSlice:
         O["waiter"] = {"model": WaitModel(S, n_workers)}
         # flags
         O["flags"] = {"cls": "_ExecutorFlags",
+                      # flags are written under the shutdown lock; a user thread reads them while holding that lock
+                      # (submit), so for user threads the read is atomic with the lock acquisition
                       "model": FieldsModel("flags", S, {"shutdown": ("bool", None), "broken": (("ref", "bpe"), None),
-                                                         "kill_workers": ("bool", False)}),
+                                                         "kill_workers": ("bool", False)},
+                                           fused_reads={"shutdown": lambda t: t.name.startswith("U"),
+                                                        "broken": lambda t: t.name.startswith("U")}),
                       "attrs": {"shutdown": ("field",), "broken": ("field",), "kill_workers": ("field",),
                                 "shutdown_lock": ObjRef("shutdown_lock")}}
         O["bpe"] = {"attrs": {}}
         # the executor object and the manager thread's view of it
         O["ex"] = {"cls": "ProcessPoolExecutor",
                    "model": FieldsModel("ex", S, {"_queue_count": ("int", None), "_max_workers": ("int", None),
-                                                   "_executor_manager_thread": (("ref", "mt"), True),
-                                                   "_processes_management_lock": (("ref", "mgmt"), True),
-                                                   "_executor_manager_thread_wakeup": (("ref", "wakeup"), True),
-                                                   "_call_queue": (("ref", "callq"), True),
-                                                   "_result_queue": (("ref", "resq"), True)},
-                                       fused_reads=["_max_workers"]),
+                                                   "_executor_manager_thread": (("ref", "mt"), None),
+                                                   "_processes_management_lock": (("ref", "mgmt"), None),
+                                                   "_executor_manager_thread_wakeup": (("ref", "wakeup"), None),
+                                                   "_call_queue": (("ref", "callq"), None),
+                                                   "_result_queue": (("ref", "resq"), None)},
+                                       # _queue_count is only touched by submit() under the shutdown lock;
+                                       # _max_workers only changes in _resize (not part of these slices)
+                                       fused_reads=["_max_workers", "_queue_count"]),
                    "attrs": {"_flags": ObjRef("flags"), "_pending_work_items": ObjRef("pending"),
                              "_running_work_items": ObjRef("running"), "_work_ids": ObjRef("workids"),
                              "_queue_count": ("field",), "_max_workers": ("field",), "_processes": ObjRef("processes"),
@@ -296,7 +308,7 @@ class ExecSlice:
             f["res"] if a == ("o", "resq.r") else f["wake"] if a == ("o", "wakeup.r") else _unsup(f"{a} in ready"))
         # processes
         c.rec_attrs[("Process", "pid")] = lambda f: f["i"]
-        c.rec_attrs[("Process", "sentinel")] = lambda f: ("c", "<sentinel>")
+        c.rec_attrs[("Process", "sentinel")] = lambda f: ("rec", "Sentinel", {"i": f["i"]})
         c.rec_attrs[("Process", "exitcode")] = lambda f: ("c", "<exitcode>")
         c.rec_attrs[("Process", "name")] = lambda f: ("c", "<name>")
         c.rec_attrs[("Process", "_worker_exit_lock")] = lambda f: ("rec", "ExitLock", {"i": f["i"]})
@@ -369,6 +381,13 @@ class ExecSlice:
         quiet = types.SimpleNamespace(debug=lambda *a, **k: None, info=lambda *a, **k: None)
         patch(pe, "mp", types.SimpleNamespace(util=quiet))
         patch(pe, "warnings", types.SimpleNamespace(warn=lambda *a, **k: None))
+        for dotted in self.comp.opaque:
+            if dotted.startswith("self."):  # methods assumed away in the model are not executed in the replay either
+                for cls in (pe.ProcessPoolExecutor, pe._ExecutorManagerThread):
+                    if hasattr(cls, dotted[5:]):
+                        patch(cls, dotted[5:], lambda self_, *a, **k: None)
+            elif "." not in dotted and hasattr(pe, dotted):
+                patch(pe, dotted, lambda *a, **k: "<opaque>")
         return patches
 
     # ------------------------------------------------------------------ threads
